@@ -59,9 +59,14 @@ def validate(ctx, evs, what, replay_kind='bcalc'):
     return v
 
 
-def repo_suite(ctx, ops):
-    """Run the repository's test suite under the tracer and validate the recorded calls of kinds `ops`."""
+_SUITE = {}
+
+
+def suite_events(ctx):
+    """Run the repository's test suite once under the tracer (qtrace.py, qtrace_money.py); returns all events."""
     repo = os.environ.get('VERIF_REPO', '/repo')
+    if repo in _SUITE:
+        return _SUITE[repo]
     fd, path = tempfile.mkstemp(prefix='qtrace-', suffix='.ndjson', dir=tlc.scratch_root())
     os.close(fd)
     env = dict(os.environ, QUANTITY_VERIF='1', QTRACE_FILE=path, VERIF_REPO=repo,
@@ -75,15 +80,23 @@ def repo_suite(ctx, ops):
     evs = []
     with open(path) as f:
         for line in f:
-            e = json.loads(line)
-            if e['op'] in ops:
-                evs.append(e)
+            evs.append(json.loads(line))
     os.unlink(path)
     if p.returncode not in (0, 1) or not evs:
         ctx.fail('test suite under the tracer: rc=%s, %d events\n%s' % (p.returncode, len(evs), p.stdout[-1500:]))
-        return
-    if p.returncode == 1:
+        evs = []
+    elif p.returncode == 1:
         ctx.notes.append('NOTE: the repository suite itself reported failures under the tracer (%s)' % tail)
+    _SUITE[repo] = evs
+    return evs
+
+
+def repo_suite(ctx, ops):
+    """Validate the calls of kinds `ops` which the repository's own test suite makes (BCalcTrace.tla)."""
+    evs = [e for e in suite_events(ctx) if e['op'] in ops]
+    if not evs:
+        ctx.fail('test suite under the tracer recorded no %s events' % sorted(ops))
+        return
     validate(ctx, evs, 'repo-suite', replay_kind='bcalc-suite')
 
 
